@@ -210,7 +210,7 @@ func TestCheck(t *testing.T) {
 		run.Note("first_touch_of_an_expired_key_by_operation", sh.firstTouch)
 		run.Finish(t)
 	})
-	run.Rule("(i) first-toucher matrix: 9 ways to write a short-lived, already expired or never expiring (year 2300 / 9999) record x 4 unrelated interludes x 3 clock advances x 17 first touchers x 9 second touchers; (ii) 1-3 waiters parked while the record is alive, 0..n-1 of them (the earliest) give up, clock advanced past the expiry; (iii)/(iv) every sequence over 26 operation instances (writes with short/long/no/past/never expiry on 2 keys; Redis: the server-side time to live of every written key is compared with the given expiry, all readers, Advance 1/3/2000 units) to the depth bound plus seeded random sequences; each followed by a full observation (Get, GetMany, ListKeys, Create); (v) inmem on the real clock: a record without expiry is written right at the expiry of its predecessor while waiters are parked on it and a long ListKeys keeps the lock busy - it must survive. Compared call by call with the contract model with a logical clock. distinct = distinct logical store states (presence, value, remaining lifetime, last write) reached")
+	run.Rule("(i) first-toucher matrix: 9 ways to write a short-lived, already expired or never expiring (year 2300 / 9999) record x 4 unrelated interludes x 3 clock advances x 17 first touchers x 9 second touchers; (ii) 1-3 waiters parked while the record is alive, 0..n-1 of them (the earliest) give up, clock advanced past the expiry; (iii)/(iv) every sequence over 26 operation instances (writes with short/long/no/past/never expiry on 2 keys; Redis: the server-side time to live of every written key is compared with the given expiry, all readers, Advance 1/3/2000 units) to the depth bound plus seeded random sequences; each followed by a full observation (Get, GetMany, ListKeys, Create); (vi) inmem, real scheduling: readers of an expired, not yet purged record race a writer of a record without expiry (80 000 / 3 200 000 rounds), the written record must survive; (v) inmem on the real clock: a record without expiry is written right at the expiry of its predecessor while waiters are parked on it and a long ListKeys keeps the lock busy - it must survive. Compared call by call with the contract model with a logical clock. distinct = distinct logical store states (presence, value, remaining lifetime, last write) reached")
 	run.Assume("expirations lie at half clock units and the clock moves in whole units, so the exact expiry instant is never sampled")
 	run.Assume("inmem: testing/synctest virtual clock; Redis: miniredis, whose clock is the sum of FastForward calls")
 
@@ -239,6 +239,16 @@ func TestCheck(t *testing.T) {
 			run.Eval(1)
 			if v := expiryRace(run, run.Seed()*977+int64(i)); v != nil {
 				run.Violation(v.Sig, v.What, map[string]any{"scenario": "expiry-race", "backend": "inmem", "seed": run.Seed()*977 + int64(i)})
+			}
+		}(i)
+	}
+	for i := 0; i < run.Pick(4, 16); i++ {
+		rwg.Add(1)
+		go func(i int) {
+			defer rwg.Done()
+			run.Eval(1)
+			if v := purgeRace(run, run.Seed()*1013+int64(i), run.Pick(20000, 200000)); v != nil {
+				run.Violation(v.Sig, v.What, map[string]any{"scenario": "purge-race", "backend": "inmem", "seed": run.Seed()*1013 + int64(i)})
 			}
 		}(i)
 	}
@@ -439,6 +449,69 @@ func expiryRace(run *report.Run, seed int64) *kvmodel.Vio {
 		got, err := s.Get(bg, key)
 		if err != nil || string(got.Value) != "keep" {
 			return &kvmodel.Vio{Sig: "inmem/live-record-dropped-at-expiry-of-its-predecessor", What: fmt.Sprintf("a record without expiry was written (successfully) %v after its predecessor expired while %d waiters were parked on the predecessor; nobody deleted it, yet Get returns (%q, %v)", time.Since(at), nw, got.Value, err)}
+		}
+	}
+	return nil
+}
+
+// purgeRace (inmem, real scheduling): a record that is expired but still physically stored (nobody touched the
+// key since) is read by several goroutines - each of them may purge it - while one goroutine writes a record
+// WITHOUT expiry under the same key. Whatever the order: the write succeeded and nobody deleted, so afterwards the
+// key must hold that record. The verdict is logical; goroutines are released from one barrier per round.
+func purgeRace(run *report.Run, seed int64, rounds int) *kvmodel.Vio {
+	s := inmem.New()
+	bg := context.Background()
+	rng := rand.New(rand.NewSource(seed))
+	for round := 0; round < rounds; round++ {
+		key := fmt.Sprintf("purge/%d", round%7)
+		past := time.Now().Add(-time.Millisecond)
+		if _, err := s.Put(bg, kvs.Record{Key: key, Value: []byte("dead"), ExpiresAt: &past}); err != nil {
+			return &kvmodel.Vio{Sig: "inmem/Put/error", What: err.Error()}
+		}
+		readers := 2 + rng.Intn(5)
+		kind := rng.Intn(4)
+		start := make(chan struct{})
+		var wg sync.WaitGroup
+		for i := 0; i < readers; i++ {
+			wg.Add(1)
+			go func(i int) {
+				defer wg.Done()
+				<-start
+				switch (kind + i) % 4 {
+				case 0:
+					_, _ = s.Get(bg, key)
+				case 1:
+					_, _ = s.GetMany(bg, key)
+				case 2:
+					_ = s.Delete(bg, key+"/other") // unrelated key: must not matter
+					_, _ = s.Get(bg, key)
+				default:
+					ctx, cancel := context.WithCancel(bg)
+					cancel()
+					_ = s.WaitForVersionChange(ctx, key, "v")
+				}
+			}(i)
+		}
+		var perr error
+		var keep kvs.Record
+		wg.Add(1)
+		go func() {
+			defer wg.Done()
+			<-start
+			for i := rng.Intn(3); i > 0; i-- {
+				runtime.Gosched()
+			}
+			keep, perr = s.Put(bg, kvs.Record{Key: key, Value: []byte("keep")})
+		}()
+		close(start)
+		wg.Wait()
+		if perr != nil {
+			return &kvmodel.Vio{Sig: "inmem/Put/error", What: perr.Error()}
+		}
+		run.Add("purge_race_rounds", 1)
+		got, err := s.Get(bg, key)
+		if err != nil || got.Version != keep.Version || string(got.Value) != "keep" {
+			return &kvmodel.Vio{Sig: "inmem/live-record-dropped-by-purge-of-its-expired-predecessor", What: fmt.Sprintf("round %d: a record without expiry was written successfully (version %s) over an expired, not yet purged record while %d goroutines read the key; nobody deleted it, yet Get returns (%q, version %q, %v)", round, keep.Version, readers, got.Value, got.Version, err)}
 		}
 	}
 	return nil
